@@ -1053,7 +1053,7 @@ package badger
 
 // Load: after every loaded entry the next timestamp is above its version.
 //@ func (*DB).Load
-//@   props C11
+//@   props C11 C24
 //@   light
 //@   loop 2 invariant[above-loaded] rangeindex >= 0 && rangeindex < len(list.Kv) && list.Kv[rangeindex].Version != ^uint64(0) ==> db.orc.nextTxnTs > list.Kv[rangeindex].Version
 //@   loop 2 invariant[largest-version-not-loaded] rangeindex >= 0 && rangeindex < len(list.Kv) ==> list.Kv[rangeindex].Version != ^uint64(0)
